@@ -5,7 +5,7 @@ of the other properties listed in ALSO) on a scratch copy of /repo's current tre
 import json, os, subprocess, sys, tempfile, shutil
 from concurrent.futures import ThreadPoolExecutor
 V = "/verif"
-ALSO = {"C04": ["C12", "C01", "C15"], "C06": ["C04", "C01", "C13"], "C14": ["C04", "C19"], "C18": ["C01", "C15", "C05", "C04"], "C15": ["C12", "C04", "C05"], "C11": ["C19", "C01"], "C05": ["C04", "C01"], "C07": ["C12"], "C10": ["C08", "C01", "C02"], "C08": ["C10", "C01", "C06", "C07"], "C02": ["C01"], "C01": ["C02"], "C20": ["C11"], "C03": ["C01", "C19", "C14"], "C19": ["C09", "C12", "C10"], "C09": ["C15"], "C17": ["C01"], "C12": ["C11", "C01", "C07"]}
+ALSO = {"C04": ["C12", "C01", "C15", "C08"], "C06": ["C04", "C01", "C13"], "C14": ["C04", "C19"], "C18": ["C01", "C15", "C05", "C04"], "C15": ["C12", "C04", "C05"], "C11": ["C19", "C01"], "C05": ["C04", "C01"], "C07": ["C12", "C04"], "C10": ["C08", "C01", "C02", "C09"], "C08": ["C10", "C01", "C06", "C07"], "C02": ["C01", "C14"], "C01": ["C02"], "C20": ["C11"], "C03": ["C01", "C19", "C14"], "C19": ["C09", "C12", "C10", "C03"], "C09": ["C15"], "C17": ["C01"], "C12": ["C11", "C01", "C07", "C04"]}
 
 
 def run(d):
